@@ -1136,6 +1136,11 @@ class OFConnection (object):
         continue
 
       message_length = message[2] << 8 | message[3]
+      if message_length < 8:
+        # Shorter than an OpenFlow header; we can't resynchronize
+        self.log.warn('Bad OpenFlow message length %i', message_length)
+        self.close()
+        break
       if message_length > len(message):
         break
 
@@ -1150,7 +1155,15 @@ class OFConnection (object):
         io_worker.consume_receive_buf(message_length)
         continue
 
-      new_offset, msg_obj = self.unpackers[ofp_type](message, 0)
+      try:
+        new_offset, msg_obj = self.unpackers[ofp_type](message, 0)
+      except Exception as e:
+        info = (e, message[:message_length], None)
+        r = self._error_handler(self.ERR_EXCEPTION, info)
+        if r is False: break
+        # Assume sender was right and we should skip what it told us to.
+        io_worker.consume_receive_buf(message_length)
+        continue
       if new_offset != message_length:
         info = (msg_obj, message_length, new_offset)
         r = self._error_handler(self.ERR_BAD_LENGTH, info)
@@ -1198,7 +1211,7 @@ class OFConnection (object):
           err = ofp_error(type=OFPET_HELLO_FAILED, code=OFPHFC_INCOMPATIBLE)
           #err = ofp_error(type=OFPET_BAD_REQUEST, code=OFPBRC_BAD_VERSION)
           err.xid = self._extract_message_xid(message)
-          err.data = 'Version unsupported'
+          err.data = b'Version unsupported'
           self.send(err)
         self.close()
         return False
